@@ -416,11 +416,36 @@ class b_int(int):
 
 class b_float(float):
     def __new__(cls, x=0.0):
+        if hasattr(x, "_pyvc_value"):
+            return b_float(x._pyvc_value())
         if isinstance(x, SNum):
             return SNum(sym._real(x.t), x.deg) if x.is_int else x
         if isinstance(x, np.ndarray) and x.dtype == object and x.shape in ((), (1,)):
             return b_float(x.reshape(-1)[0])
         return builtins.float(x)
+
+
+class b_range:
+    """range() as seen by extracted code.  With a symbolic bound the loop body is executed for ONE representative
+    index i (0 <= i < n, fresh) when n > 0 is feasible; the requested count is recorded on the context
+    (`ctx.range_counts`) so that a contract can state how many iterations Python performs (range semantics: trusted)."""
+
+    def __new__(cls, *a):
+        if not any(isinstance(x, SNum) for x in a):
+            return builtins.range(*[builtins.int(x) for x in a])
+        o = object.__new__(cls)
+        if len(a) != 1:
+            raise Unsupported("range(start, stop) with symbolic bounds")
+        o.n = a[0]
+        return o
+
+    def __iter__(self):
+        c = ctx()
+        c.__dict__.setdefault("range_counts", []).append(self.n)
+        if self.n > 0:  # path split
+            i = SNum(c.fresh("i", "int"))
+            c.assume(sym.And(i >= 0, i < self.n))
+            yield i
 
 
 def b_bool(x=False):
@@ -513,7 +538,7 @@ def s_finfo(t=float):
 
 _reg(np.finfo, s_finfo)
 _UNSHIM.update({b_int: int, b_float: float, b_bool: bool})
-BUILTINS = {"int": b_int, "float": b_float, "bool": b_bool, "round": b_round, "isinstance": b_isinstance}
+BUILTINS = {"range": b_range, "int": b_int, "float": b_float, "bool": b_bool, "round": b_round, "isinstance": b_isinstance}
 
 
 class ShimModule:
